@@ -61,7 +61,7 @@ for sid in ids:
             results[p] = r
         ran = meta.setdefault('what_i_ran', {})
         ran['check'] = {'quick': results[prop]}
-        ran['caught_by_quick'] = results[prop]['rc'] == 1
+        ran['caught_by_quick'] = results[prop]['rc'] == 1 and any(l.startswith('VIOLATION') for l in results[prop]['lines'])
         if extra:
             ran['other_checks'] = {p: results[p] for p in extra}
         ran['rechecked_at_verif_commit'] = head
